@@ -43,6 +43,11 @@ def okName (x : String) : Bool := okBinder x && okSym x
 /-- a parameter: such a name, not lazy -/
 def okParam (p : String) : Bool := okName p && !p.startsWith "#"
 
+/-- the rest parameter of a variadic function, if there is one -/
+def okRest : Option String → Bool
+  | none => true
+  | some r => okParam r
+
 /-- a call head that cannot be the name the generator gives an anonymous function -/
 def okHead (h : String) : Bool := okSym h && !h.startsWith "__anon"
 
@@ -67,9 +72,9 @@ def Ff (fnOk : Bool) (self : String) : Expr → Bool
   | .for_ _ init test incr body => Ff fnOk self init && Ff fnOk self test && Ff fnOk self incr && FfList fnOk self body
   | .call (.sym h) args => (h != self) && (h != "") && okHead h && FaList args
   | .fn ps rest body =>
-    fnOk && rest.isNone && decide ps.Nodup && ps.all okParam && !body.isEmpty && FfList true "" body
+    fnOk && okRest rest && decide (ps ++ rest.toList).Nodup && ps.all okParam && !body.isEmpty && FfList true "" body
   | .defn name ps rest body =>
-    fnOk && rest.isNone && okName name && (name != "") && decide ps.Nodup && ps.all okParam && !body.isEmpty
+    fnOk && okRest rest && okName name && (name != "") && decide (ps ++ rest.toList).Nodup && ps.all okParam && !body.isEmpty
       && FfList true name body
   | _ => false
 def FfList (fnOk : Bool) (self : String) : List Expr → Bool
@@ -708,10 +713,10 @@ def fnCode (t : Nat) (ps : List String) (b : List Instr) : List Instr :=
 
 /-- what the generator knows about the function whose body it compiles (for the arity check of a self
 tail call, `knownFunctions`): under its own name it finds the template with these formals -/
-def KnownOk (cb : Ctx) (gs0 : GS) (ps : List String) : Prop :=
+def KnownOk (cb : Ctx) (gs0 : GS) (ps : List String) (rest : Option String) : Prop :=
   cb.funcname ≠ "" → (∃ t' : Nat, cb.funcname = s!"__anon{t'}") ∨
-    ∃ t, cb.known.lookup cb.funcname = some t ∧ t < gs0.fns.length ∧ (gs0.fns.getD t {}).varargs = false
-      ∧ (gs0.fns.getD t {}).nargs = ps.length ∧ (gs0.fns.getD t {}).params = ps
+    ∃ t, cb.known.lookup cb.funcname = some t ∧ t < gs0.fns.length ∧ (gs0.fns.getD t {}).varargs = rest.isSome
+      ∧ (gs0.fns.getD t {}).nargs = ps.length ∧ (gs0.fns.getD t {}).params = ps ++ rest.toList
 
 /-- VM function `vid` is a closure object for the reference closure `m vid`: parameters as declared,
 code compiled from the body, and its closing stack — with those of the functions that made it — is
@@ -719,15 +724,16 @@ the static chain of the closure's environment -/
 structure GoodFn (m : Nat → Nat) (s : St) (rs : Ref.St) (vid : Nat) : Prop where
   lt : vid < s.fns.length
   nm : mainFn < vid
-  clo : ∃ c, rs.clos[m vid]? = some c ∧ c.rest = none ∧ c.ps.Nodup ∧ (∀ p ∈ c.ps, okParam p = true)
-    ∧ c.body ≠ [] ∧ (fnOf s vid).params = c.ps ∧ (fnOf s vid).nargs = c.ps.length ∧ (fnOf s vid).varargs = false
+  clo : ∃ c, rs.clos[m vid]? = some c ∧ okRest c.rest = true ∧ (c.ps ++ c.rest.toList).Nodup ∧ (∀ p ∈ c.ps, okParam p = true)
+    ∧ c.body ≠ [] ∧ (fnOf s vid).params = c.ps ++ c.rest.toList ∧ (fnOf s vid).nargs = c.ps.length
+    ∧ (fnOf s vid).varargs = c.rest.isSome
     ∧ (fnOf s vid).user = false ∧ c.env < s.scopes.length
     ∧ (∃ k' p, (fnOf s vid).parent = some p ∧ p < vid ∧ ChainF (isFnScope s) rs.frames k' c.env (fnOf s vid).closing
         ∧ FnChainF s rs.frames (fnOf s vid).closing k' p)
-    ∧ ∃ t b tl isFn cb gs0 gs1 self, (fnOf s vid).code = fnCode t c.ps b ∧ t < s.fns.length
+    ∧ ∃ t b tl isFn cb gs0 gs1 self, (fnOf s vid).code = fnCode t (c.ps ++ c.rest.toList) b ∧ t < s.fns.length
         ∧ (fnOf s t).closing = [some 0] ∧ (compileBegin isFn cb c.body).run gs0 = .ok ((b, tl), gs1) ∧ cb.scopes = 0
         ∧ FnameOk self cb ∧ (∃ ex, FzList ex self c.body = true ∧ (ex = true → gs0.loopstack = [])) ∧ GenOk gs0 gs1 s
-        ∧ KnownOk cb gs0 c.ps
+        ∧ KnownOk cb gs0 c.ps c.rest
 
 /-- the reference closure table only grows -/
 def ClosExt (rs rs' : Ref.St) : Prop := ∀ (i : Nat) (c : Ref.Clos), rs.clos[i]? = some c → rs'.clos[i]? = some c
@@ -1217,6 +1223,38 @@ theorem run_callFunction_fixed (vid : Nat) (vs : List Val) (D : List (Option Val
     rfl
   · simp only [ne_eq, hn, not_false_eq_true, if_true, run_err, run_bind, if_false]
 
+/-- `CallFunction` of a variadic function: the arguments beyond the fixed ones are packed into a list -/
+theorem run_callFunction_var (vid : Nat) (vs : List Val) (D : List (Option Val)) (s : St)
+    (hd : s.data = vs.reverse.map some ++ D) (hv : (fnOf s vid).varargs = true) (hn : (fnOf s vid).nargs ≤ vs.length) :
+    (callFunction vid vs.length).run s = (.ok (), entered
+      { s with data := some (mkList (vs.drop (fnOf s vid).nargs)) :: (vs.take (fnOf s vid).nargs).reverse.map some ++ D } vid) := by
+  unfold callFunction
+  have hnlt : ¬ s.data.length < vs.length := by rw [hd]; simp
+  have hnone : ((s.data.take vs.length).any Option.isNone) = false := by
+    have hlen : (vs.reverse.map some).length = vs.length := by simp
+    rw [hd, ← hlen, List.take_left]
+    simp
+  simp only [run_bind, run_get, run_ite, if_neg hnlt, hnone, Bool.false_eq_true, if_false, run_pure, hv, if_true]
+  unfold wrangleOptargs
+  have hnlt2 : ¬ vs.length < (fnOf s vid).nargs := by omega
+  simp only [run_ite, if_neg hnlt2]
+  by_cases hgt : vs.length > (fnOf s vid).nargs
+  · simp only [if_pos hgt, run_bind]
+    have hsplit : s.data = (vs.drop (fnOf s vid).nargs).reverse.map some ++ ((vs.take (fnOf s vid).nargs).reverse.map some ++ D) := by
+      rw [hd, ← List.append_assoc, ← List.map_append, ← List.reverse_append, List.take_append_drop]
+    have hlen' : vs.length - (fnOf s vid).nargs = (vs.drop (fnOf s vid).nargs).length := by simp
+    rw [hlen', run_popN _ _ s hsplit]
+    simp only [run_pushData, run_modify]
+    rfl
+  · have heq : vs.length = (fnOf s vid).nargs := by omega
+    simp only [if_neg hgt, run_pushData, run_bind, run_modify]
+    have h1 : vs.drop (fnOf s vid).nargs = [] := by rw [← heq]; simp
+    have h2 : vs.take (fnOf s vid).nargs = vs := by rw [← heq]; simp
+    rw [h1, h2]
+    show _ = (Except.ok (), entered { s with data := some (mkList []) :: (vs.reverse.map some ++ D) } vid)
+    rw [← hd]
+    rfl
+
 /-- the state after `AddFuncScopeInstr` -/
 def _root_.ZygoVerif.VM.St.pushFnScope (s : St) (t : Nat) : St :=
   { s with scopes := s.scopes ++ [({ isFunction := true, myFunction := some t } : Scope)],
@@ -1547,14 +1585,15 @@ def mapWith (m : Nat → Nat) (vid cid : Nat) : Nat → Nat := fun id => if id =
 /-- **`createClosure t` makes a good closure object**: template `t` was compiled from the body of
 the reference closure `c` just appended, whose environment is the current one -/
 theorem GoodFn.create {m : Nat → Nat} {s : St} {rs : Ref.St} {env : Nat} (h : RelF m s rs env) (t : Nat) (c : Ref.Clos)
-    (hmain : mainFn < s.fns.length) (hcenv : c.env = env) (hrest : c.rest = none) (hnd : c.ps.Nodup)
+    (hmain : mainFn < s.fns.length) (hcenv : c.env = env) (hrest : okRest c.rest = true) (hnd : (c.ps ++ c.rest.toList).Nodup)
     (hps : ∀ p ∈ c.ps, okParam p = true) (hbody : c.body ≠ [])
-    (hparams : (fnOf s t).params = c.ps) (hnargs : (fnOf s t).nargs = c.ps.length) (hvar : (fnOf s t).varargs = false)
+    (hparams : (fnOf s t).params = c.ps ++ c.rest.toList) (hnargs : (fnOf s t).nargs = c.ps.length)
+    (hvar : (fnOf s t).varargs = c.rest.isSome)
     (huser : (fnOf s t).user = false) (htlt : t < s.fns.length) (htclo : (fnOf s t).closing = [some 0])
-    (hcode : ∃ b tl isFn cb gs0 gs1 self, (fnOf s t).code = fnCode t c.ps b
+    (hcode : ∃ b tl isFn cb gs0 gs1 self, (fnOf s t).code = fnCode t (c.ps ++ c.rest.toList) b
       ∧ (compileBegin isFn cb c.body).run gs0 = .ok ((b, tl), gs1) ∧ cb.scopes = 0
       ∧ FnameOk self cb ∧ (∃ ex, FzList ex self c.body = true ∧ (ex = true → gs0.loopstack = [])) ∧ GenOk gs0 gs1 s
-      ∧ KnownOk cb gs0 c.ps)
+      ∧ KnownOk cb gs0 c.ps c.rest)
     (s₁ : St) (rs₁ : Ref.St) (hs1 : s₁ = afterClosure s t) (hrs1 : rs₁ = { rs with clos := rs.clos ++ [c] }) :
     GoodFn (mapWith m s.fns.length rs.clos.length) s₁ rs₁ s.fns.length := by
   subst hs1; subst hrs1
